@@ -60,7 +60,27 @@ pub struct HistCase {
 /// Pool key `i` under naming scheme `style`; all are safe single-component file
 /// names, unique per index, never ending in ".tmp" (the disk cache's own
 /// temporary-file namespace).
+/// Keys that differ only in characters a file-name sanitiser would fold together (`:` `<` `>` `"`
+/// `|` `?` `*` `\\` against `_`, upper against lower case): neighbours 2j / 2j+1 of the pool are
+/// such a pair. Distinct keys are distinct entries whatever their spelling.
+const CONFUSABLE: [(&str, &str); 8] = [
+    ("cdn:config_ab", "cdn_config:ab"),
+    ("a<b", "a_b"),
+    ("p|q", "p_q"),
+    ("s*", "s_"),
+    ("w\\z", "w_z"),
+    ("d\"e", "d_e"),
+    ("q?r", "q_r"),
+    ("Key", "key"),
+];
+
 pub fn key_name(style: u8, i: usize) -> String {
+    if style >= 240 {
+        let (a, b) = CONFUSABLE[(i / 2 + usize::from(style - 240)) % CONFUSABLE.len()];
+        let round = i / (2 * CONFUSABLE.len());
+        let base = if i % 2 == 0 { a } else { b };
+        return if round == 0 { base.to_string() } else { format!("{base}{round}") };
+    }
     match style % 6 {
         0 => format!("k{i}"),
         1 => format!("ribbit:us:ep{i}"),
